@@ -301,7 +301,7 @@ func Amount(r *rand.Rand, allowZero, allowNeg bool) string {
 		s = fmt.Sprintf("%d.%02d", 1+r.Intn(500), r.Intn(100))
 	}
 	if allowZero && r.Intn(25) == 0 {
-		s = pick(r, []string{"0", "0.00", "0.0"})
+		s = pick(r, []string{"0", "0.00", "0.0", "-0", "-0.00"})
 	}
 	if allowNeg && r.Intn(6) == 0 && Rat(s).Sign() != 0 {
 		s = "-" + s
